@@ -55,7 +55,12 @@ def main():
 
     int_to_f64 = re.search(r"Integer\s*\{[^}]*\}\s*=>\s*v\s+as\s+f64", flat) is not None
     back_to_i64 = re.search(r"const_integer_from\(\s*folded\s+as\s+i64\s*\)", flat) is not None
-    checked = "checked_" in flat
+    # checked i64 folding: either checked_* calls in the body, or an integer closure
+    # `FnMut(i64, i64) -> Option<i64>` applied with try_fold in the `!is_float` branch
+    sig = re.sub(r"\s+", " ", strip_comments(impl[impl.index("fn fold_arithmetic"):impl.index("fn fold_arithmetic") + 600]))
+    closure_checked = (re.search(r"FnMut\(i64, i64\) -> Option<i64>", sig) is not None and
+                       re.search(r"if !is_float \{.*?values\.try_fold\(first, i\) \{ Some\(folded\) => \{? ?Ok\(Some\(TypeValue::const_integer_from\(folded\)\)\) \}? ?,? None => Err\(Error::NumberOutOfRange\),? \}", flat) is not None)
+    checked = "checked_" in flat or closure_checked
     if int_to_f64 and back_to_i64:
         via_f64 = True
     elif not back_to_i64 and checked:
@@ -89,7 +94,7 @@ def main():
     uses = {}
     for name, op in CLOSURES.items():
         body = re.sub(r"\s+", " ", strip_comments(fn_body(impl, name, f"IR::{name}")))
-        m = re.search(r"self\.fold_arithmetic\(\s*operands\.as_slice\(\)\s*,\s*is_float\s*,\s*\|acc,\s*x\|\s*acc\s*(\S)\s*x\s*,?\s*(?:\|acc,\s*x\|\s*acc\.checked_(add|sub|mul)\(x\)\s*,?\s*)?\)", body)
+        m = re.search(r"self\.fold_arithmetic\(\s*operands\.as_slice\(\)\s*,\s*is_float\s*,\s*\|acc,\s*x\|\s*acc\s*(\S)\s*x\s*,?\s*(?:(?:\|acc,\s*x\|\s*acc\.checked_|i64::checked_)(add|sub|mul)(?:\(x\))?\s*,?\s*)?\)", body)
         if not m:
             if "fold_arithmetic" in body or "checked_" in body:
                 raise TranslateError(f"IR::{name}: call of fold_arithmetic has an unexpected shape")
@@ -100,6 +105,8 @@ def main():
             if m.group(2) and m.group(2) != name:
                 raise TranslateError(f"IR::{name}: integer folding closure is checked_{m.group(2)}")
             uses[name] = True
+            if not via_f64 and closure_checked and not m.group(2):
+                raise TranslateError(f"IR::{name}: no checked integer closure passed to fold_arithmetic")
     for name in ("div", "modulus"):
         if "fold_arithmetic" in fn_body(impl, name):
             raise TranslateError(f"IR::{name} now folds; Opt/Fold.v does not model it")
